@@ -32,11 +32,13 @@ Has(r, f) == f \in DOMAIN r
 
 \* ------------------------------------------------------------ reporting
 \* (the case itself is not repeated: the runner looks it up by its index b)
-Viol(x, m, e, blame, diff, info) ==
-  PrintT(<<"VIOL", ToJson([p |-> "C08", m |-> m, line |-> l, b |-> x.b, ev |-> x.ev, e |-> e, blame |-> blame, diff |-> diff])>>)
+\* diff: the differing field classes; inh: those of them that the binary V4 slate itself shows (a slatepack
+\* carries the binary slate, so these are attributed to "bin", the rest to the encoding e)
+Viol(x, m, e, inh, diff, info) ==
+  PrintT(<<"VIOL", ToJson([p |-> "C08", m |-> m, line |-> l, b |-> x.b, ev |-> x.ev, e |-> e, inh |-> inh, diff |-> diff])>>)
 NonConf(x, e, what, info) ==
   PrintT(<<"NONCONF", ToJson([line |-> l, b |-> x.b, ev |-> x.ev, e |-> e, what |-> what, info |-> info])>>)
-CheckP(c, x, m, e, blame, diff, info) == IF c THEN TRUE ELSE Viol(x, m, e, blame, diff, info)
+CheckP(c, x, m, e, inh, diff, info) == IF c THEN TRUE ELSE Viol(x, m, e, inh, diff, info)
 CheckMM(c, x, e, what, info) == IF ~CheckM THEN TRUE ELSE IF c THEN TRUE ELSE NonConf(x, e, what, info)
 
 \* ----------------------------------------------------- observation -> model
@@ -64,9 +66,9 @@ ObsDiff(x, e, s0, env) ==
   ELSE DiffSet(s0, ObsSlate(o.dec))
        \cup (IF o.h # x.h0 THEN {"material"} ELSE {})
        \cup (IF IsPack(e) /\ ((o.sender = "same") # env.snd \/ o.sender = "diff") THEN {"sender"} ELSE {})
-\* a difference the slatepack layers inherit from the binary slate they carry is attributed to "bin"
-ObsBlame(x, e, s0, env, diff) ==
-  IF UsesBin(e) /\ e # "bin" /\ ObsDiff(x, "bin", s0, env) = diff THEN "bin" ELSE e
+\* the differences a slatepack encoding inherits from the binary slate it carries
+ObsInherited(x, e, s0, env, diff) ==
+  IF UsesBin(e) /\ e # "bin" THEN diff \cap ObsDiff(x, "bin", s0, env) ELSE {}
 
 JudgeSlate(x) ==
   LET cs   == ObsCase(x["in"])
@@ -81,14 +83,15 @@ JudgeSlate(x) ==
        CheckP(InScope(s0) => (/\ RoundTripRes(r(e), s0, env, e)
                               /\ x.enc[e].h = x.h0
                               /\ (IsPack(e) => x.enc[e].sender # "diff")),
-              x, "RoundTrip", e, ObsBlame(x, e, s0, env, diff), diff, x["in"])
+              x, "RoundTrip", e, ObsInherited(x, e, s0, env, diff), diff, x["in"])
   \* ---- Layer P: CrossEqual(s): every decoding equals the decoding of the JSON form
   /\ \A e \in Encodings \ {"json"} :
-       LET ok == r(e).res = "ok" /\ r("json").res = "ok" IN
+       LET ok == r(e).res = "ok" /\ r("json").res = "ok"
+           xd(f) == IF r(f).res = "ok" /\ r("json").res = "ok"
+                    THEN DiffSet(r("json").slate, r(f).slate) \cup (IF x.enc[f].h # x.enc.json.h THEN {"material"} ELSE {})
+                    ELSE {} IN
        CheckP((InScope(s0) /\ ok) => (SlateEq(r(e).slate, r("json").slate) /\ x.enc[e].h = x.enc.json.h),
-              x, "CrossEqual", "json~" \o e, ObsBlame(x, e, s0, env, ObsDiff(x, e, s0, env)),
-              IF ok THEN DiffSet(r("json").slate, r(e).slate) \cup (IF x.enc[e].h # x.enc.json.h THEN {"material"} ELSE {})
-              ELSE {}, x["in"])
+              x, "CrossEqual", "json~" \o e, IF e = "bin" THEN {} ELSE xd(e) \cap xd("bin"), xd(e), x["in"])
   \* ---- Layer M: the model predicts everything that was observed
   /\ CheckMM(s0 = SlateOfCase(cs), x, "-", "Intake:FromV4", [exp |-> SlateOfCase(cs), obs |-> s0])
   /\ \A e \in Encodings :
